@@ -273,6 +273,13 @@ class Gen:
                 else:
                     init.append(H.assign(v0, H.ex(H.add(H.var(v0), H.num(r.choice(SMALL[1:]))))))
                 self.features.add("double-init")
+        if self.nums and self.coin(0.12):
+            # a loop constant that copies the initial value of a variable which then changes in the loop
+            src = r.choice(self.nums)
+            if src not in self.uninit:
+                init.append(H.assign("k0", H.ex(H.add(H.var(src), H.num(r.choice([0, 1, -1]))))))
+                self.late_const = ("k0", src)
+                self.features.add("constant-copies-variable")
         for d in dnames:
             # draws are (re)assigned in every iteration before they are used; give them an initial value
             init.append(H.assign(d, H.ex(H.num(0))))
@@ -312,6 +319,10 @@ class Gen:
             body += self.wrap_in_ifs(stmts_flat, depth=0)
         else:
             body += stmts_flat
+        if getattr(self, "late_const", None) and self.nums:
+            kc, src = self.late_const
+            tgt = r.choice(self.nums)
+            body.append(H.assign(tgt, H.ex(H.add(H.var(tgt), H.var(kc)))))
         # 3. sometimes a late finite update (so conditions above read the *old* value of later-assigned vars)
         if fnames and self.coin(0.25):
             f = r.choice(fnames)
